@@ -11,8 +11,52 @@ import (
 
 const c18env = "VERIF_C18_ENV"
 
-// c18define declares the option under test ("target") of one of the 12 kinds.
-func c18define(o *GetOpt, kind int, fns []ModifyFn, defS string) (valueName string) {
+// c18define declares the option under test ("target") of one of the 12 kinds,
+// through the plain form or through the *Var form with a variable that holds
+// something else than the declared default when the option is declared.
+func c18define(o *GetOpt, kind int, fns []ModifyFn, defS string, varForm bool) (valueName string) {
+	if varForm {
+		b, i, f, str := true, 99, 9.5, "stale"
+		sl, il, fl, m := []string{"stale"}, []int{99}, []float64{9.5}, map[string]string{"stale": "x"}
+		switch kind {
+		case 0:
+			o.BoolVar(&b, "target", false, fns...)
+			return ""
+		case 1:
+			o.IncrementVar(&i, "target", 0, fns...)
+			return ""
+		case 2:
+			o.StringVar(&str, "target", defS, fns...)
+			return "string"
+		case 3:
+			o.IntVar(&i, "target", 7, fns...)
+			return "int"
+		case 4:
+			o.Float64Var(&f, "target", 2.5, fns...)
+			return "float64"
+		case 5:
+			o.StringVarOptional(&str, "target", defS, fns...)
+			return "string"
+		case 6:
+			o.IntVarOptional(&i, "target", 7, fns...)
+			return "int"
+		case 7:
+			o.Float64VarOptional(&f, "target", 2.5, fns...)
+			return "float64"
+		case 8:
+			o.StringSliceVar(&sl, "target", 1, 2, fns...)
+			return "string"
+		case 9:
+			o.IntSliceVar(&il, "target", 1, 2, fns...)
+			return "int"
+		case 10:
+			o.Float64SliceVar(&fl, "target", 1, 2, fns...)
+			return "float64"
+		default:
+			o.StringMapVar(&m, "target", 1, 2, fns...)
+			return "key=value"
+		}
+	}
 	switch kind {
 	case 0:
 		o.Bool("target", false, fns...)
@@ -64,6 +108,10 @@ func VerifC18_Help() {
 	atCommand := vBool("atcommand") // help of a command that inherits the option
 	nCmds := vInt("commands", 0, 2)
 	helpCmd := vBool("helpcmd")
+	varForm := false // declared through the *Var form, the variable holding another value
+	if nAlias == 0 && descKind == 0 && nCmds == 0 && !helpCmd {
+		varForm = vBool("varform")
+	}
 	long := vBool("longnames") // a long program name and long aliases: the synopsis has to wrap
 	desc := vString("description")
 	defS := vString("default")
@@ -113,7 +161,7 @@ func VerifC18_Help() {
 	case 2:
 		fns = append(fns, opt.Description("first line\nsecond line"))
 	}
-	c18define(opt, kind, fns, defS)
+	c18define(opt, kind, fns, defS, varForm)
 	opt.Bool("omega", false, opt.Description("context option"))
 	opt.String("zeta", "zd")
 	var level *GetOpt = opt
@@ -200,8 +248,14 @@ func VerifC18_Help() {
 			vAssert("default/shown", strings.Contains(block, "(default: 7"))
 		case 0:
 			vAssert("default/shown", strings.Contains(block, "(default: false"))
+		case 1:
+			vAssert("default/shown", strings.Contains(block, "(default: 0"))
+		case 4, 7:
+			vAssert("default/shown", strings.Contains(block, "(default: 2.5"))
+		case 8, 9, 10:
+			vAssert("default/shown", strings.Contains(block, "(default: []"))
 		default:
-			vAssert("default/shown", strings.Contains(block, "(default: "))
+			vAssert("default/shown", strings.Contains(block, "(default: {}"))
 		}
 	}
 	// (4) environment variable of every bound option
